@@ -642,9 +642,13 @@ class Exec:
             # call-site form `a::<impl T>::f::promoted[0]` vs definition `a::<impl at file..>::f::promoted[0]`
             m = re.match(r"(.*)::(promoted\[\d+\]|\{constant#\d+\})$", c)
             if m:
-                owner = self.P.resolve(strip_generics(m.group(1)))
-                if owner and f"{owner}::{m.group(2)}" in self.P.fns:
-                    name = f"{owner}::{m.group(2)}"
+                base, clos = m.group(1), ""
+                mc = re.match(r"(.*?)((?:::\{closure#\d+\})+)$", base)
+                if mc:
+                    base, clos = mc.group(1), mc.group(2)
+                owner = self.P.resolve(strip_generics(base))
+                if owner and f"{owner}{clos}::{m.group(2)}" in self.P.fns:
+                    name = f"{owner}{clos}::{m.group(2)}"
             if name is None:
                 last = c.split("::")[-1]
                 cands = [n for n in self.P.fns if getattr(self.P.fns[n], "is_const", False) and n.split("::")[-1] == last]
